@@ -66,7 +66,7 @@ CYCLES = [
   }},
  {'name': 'gcmark', 'file': 'gc.c', 'link': ['wrap.c'],
   'remove_bodies': 'janet_collect|janet_sweep|janet_clear_memory|janet_gcalloc|janet_deinit_block',
-  'depth': '((int64_t) JANET_RECURSION_GUARD - (int64_t) depth)', 'limit': 'JANET_RECURSION_GUARD', 'global_depth': 'depth = nd_u32();', 'nanbox': False,
+  'depth': '((int64_t) JANET_RECURSION_GUARD - (int64_t) depth)', 'limit': 'JANET_RECURSION_GUARD', 'global_depth': 'depth = nd_u32();', 'nanbox': False, 'restore': 'depth',
   # abstract gcmark hooks and the fiber's event callback (MARK event) are external code that re-enters through janet_mark only
   'hooks': [dict(name='gcmark', ret='int', params='void *data, size_t len', depth='((int64_t) JANET_RECURSION_GUARD - (int64_t) depth)', rank=2),
             dict(name='evmark', ret='void', params='JanetFiber *fiber, JanetAsyncEvent event', depth='((int64_t) JANET_RECURSION_GUARD - (int64_t) depth)', rank=2)],
@@ -95,7 +95,7 @@ CYCLES = [
  {'name': 'destructure', 'file': 'specials.c', 'link': ['wrap.c'],
   'remove_bodies': 'janetc_fn|janetc_while|janetc_if|janetc_do|janetc_upscope|janetc_break|janetc_quasiquote|quasiquote|janetc_splice|janetc_quote|janetc_unquote|janetc_varset',
   'depth': '((int64_t) JANET_RECURSION_GUARD - (int64_t) c->recursion_guard)', 'limit': 'JANET_RECURSION_GUARD', 'nanbox': False,
-  'cycle_pre': 'JanetCompiler vc_c; vc_c.recursion_guard = nd_int(); c = &vc_c;',
+  'cycle_pre': 'JanetCompiler vc_c; vc_c.recursion_guard = nd_int(); c = &vc_c;', 'restore': 'c->recursion_guard',
   # out-parameters of body-less helpers (janet_indexed_view, janet_dictionary_view) must be havocked, otherwise no loop is entered
   'genbody_options': 'havoc,params:.*',
   'members': [
@@ -168,8 +168,13 @@ def gen_cycle(c):
         lines.append('%s %s__entry(%s);' % (m['ret'], m['name'], m['params']))
         pre = m.get('pre', c.get('cycle_pre', '') if m in allm else '')
         assume = '' if m['guarded'] else '__CPROVER_assume(g_depth <= (int64_t) %s + %d);' % (c['limit'], m.get('bound', 1))
-        lines.append('void h_%s(void) { %s %s %s g_depth = %s; g_rank = %d; %s %s__entry(%s); }' % (
-            m['name'], decl, c.get('global_depth', ''), pre, dexpr, m['rank'], assume, m['name'], ', '.join(names)))
+        post = ''
+        if c.get('restore') and m in allm:
+            post = ' __CPROVER_assert((int64_t)(%s) == vc_saved, "C19 %s: the shared depth counter is restored on normal return"); __CPROVER_assert(0, "REACH-ANY: %s returns normally");' % (c['restore'], m['name'], m['name'])
+            pre = pre + ' int64_t vc_saved = (int64_t)(%s);' % c['restore'] if False else pre
+        save = (' int64_t vc_saved = (int64_t)(%s);' % c['restore']) if (c.get('restore') and m in allm) else ''
+        lines.append('void h_%s(void) { %s %s %s g_depth = %s; g_rank = %d; %s%s %s__entry(%s);%s }' % (
+            m['name'], decl, c.get('global_depth', ''), pre, dexpr, m['rank'], assume, save, m['name'], ', '.join(names), post))
         rc = ['%s:vc_depth_%s' % (x['name'], x['name']) for x in allm]
         u = {'id': 'rec.%s.%s' % (c['name'], m['name']), 'props': ['C19'], 'tier': 'quick', 'class': 'bounded', 'group': 'rec.' + c['name'],
              'bound': 'loops unwound 2x without unwinding assertion (depth terms are not assigned in loops); every recursive call site must be reached in some unit of the cycle',
